@@ -1269,10 +1269,15 @@ void BSSubIndexTriShape::notifyVerticesDelete(const std::vector<uint16_t>& vertI
 	size_t i = 0;
 	for (auto& segment : segmentation.segments) {
 		// Align sub segments
+		// Triangles owned by the segment itself come before those of its sub segments
+		uint32_t numOwnPrimitives = segment.numPrimitives;
+		for (auto& subSegment : segment.subSegments)
+			numOwnPrimitives -= subSegment.numPrimitives;
+
 		size_t j = 0;
 		for (auto& subSegment : segment.subSegments) {
 			if (j == 0)
-				subSegment.startIndex = segment.startIndex;
+				subSegment.startIndex = segment.startIndex + numOwnPrimitives * 3;
 
 			if (j + 1 >= segment.numSubSegments)
 				continue;
